@@ -456,5 +456,5 @@ def run(ctx):
     for i in range(n):
         kind = ["admin", "admin", "toml", "input"][i % 4]
         cases.append(("%s%d" % (kind, i), gen_case(rnd, now, kind)))
-    search(ctx, "crash", cases, ctx.scale(900, 7200))
-    search(ctx, "edges", edge_cases(now), ctx.scale(900, 3600), shards=16)
+    search(ctx, "crash", cases, ctx.scale(900, 1200))
+    search(ctx, "edges", edge_cases(now), ctx.scale(900, 1200), shards=16)
